@@ -69,7 +69,24 @@ def gen_cases(rng, tier):
                 thr.append(enc(rng.choice([max(allv) + 1, min(allv) - 1])))
             else:
                 thr.append(enc(Fraction(rng.randint(-28, 28), 8)))
-        if k % 13 == 5 and allv:
+        thr_dtype = None
+        if k % 11 == 3 and k % 2 == 1:
+            # thresholds taken from the scores and held in the scores' own unsigned dtype
+            thr = [enc(rng.choice(allv)) for _ in range(rng.randint(2, 6))]
+            thr_dtype = "same"
+        if k % 11 == 7:
+            # thresholds held in a narrower float type than the scores: float32 values (short dyadics) as thresholds,
+            # and scores that are the float64 neighbours of those thresholds
+            pos = score_list(rng, max(npos, 2) if npos <= 40 else 8, "dyadic")
+            neg = score_list(rng, max(nneg, 2) if nneg <= 40 else 8, "dyadic")
+            base = [rng.choice(pos + neg) for _ in range(rng.randint(2, 5))]
+            for v in base:
+                (pos if rng.random() < 0.5 else neg).append(nextafter(v, True))
+                (pos if rng.random() < 0.5 else neg).append(nextafter(v, False))
+            allv = pos + neg
+            thr = [enc(v) for v in base]
+            thr_dtype = rng.choice(["float32", "float32", "float16"])
+        if k % 13 == 5 and allv and thr_dtype is None:
             # a long sorted grid of thresholds (more thresholds than samples), many of them exactly on a score
             m = rng.choice([32, 33, 40, 64, 100, 130])
             grid = sorted(rng.choice(allv) if rng.random() < 0.5 else Fraction(rng.randint(-60, 60), 8) for _ in range(m))
@@ -78,7 +95,7 @@ def gen_cases(rng, tier):
             thr = [enc(t) for t in grid]
         cases.append({"pos": [enc(x) for x in pos], "neg": [enc(x) for x in neg],
                       "ep": rng.choice([0, 0, 1, 3, 17]), "en": rng.choice([0, 0, 2, 5]),
-                      "sc": sc, "ec": ec, "thr": thr, "is_sorted": k % 6 == 0,
+                      "sc": sc, "ec": ec, "thr": thr, "thr_dtype": thr_dtype, "is_sorted": k % 6 == 0,
                       "dtype": pick_dtype(rng, pos + neg) if pos + neg else "float64",
                       "derive": (rng.randint(1, 10 ** 6) if k % 4 == 2 and max(npos, nneg) <= 40 else None),
                       "history": rng.choice([None, None, None, "proportion", "replacement", "single_pass", "swap", "thresholds"])})
@@ -96,6 +113,13 @@ def run_impl(case):
     rs0 = np.random.RandomState(len(pos) * 17 + len(neg))       # handed over in a shuffled order; the constructor sorts
     pos, neg = pos[rs0.permutation(len(pos))], neg[rs0.permutation(len(neg))]
     thr = np.array([fl(t) for t in case["thr"]], dtype=float)
+    tdt = case.get("thr_dtype")
+    if tdt:
+        tdt = dt if tdt == "same" else np.dtype(tdt)
+        with np.errstate(all="ignore"):
+            cast = thr.astype(tdt) if (tdt.kind == "f" or np.all(np.isfinite(thr))) else thr
+        if np.array_equal(cast.astype(float), thr):     # the same values, held in another dtype
+            thr = cast
     s = Scores(pos, neg, nb_easy_pos=case["ep"], nb_easy_neg=case["en"], score_class=case["sc"], equal_class=case["ec"])
     # the property holds for the object whatever was called on it before: run a short history first
     h = case.get("history")
